@@ -211,14 +211,14 @@ def append_step(pattern, folders, opts, new, focus=None):
     return r
 
 
-def append_open_position(pattern, folders):
+def append_open_position(pattern, folders, mode="a"):
     """the real SevenZipFile.__init__(fileobj, 'a') on a file object whose position is anywhere: the session either appends
     to the archive that is there (it sees its members) or raises - it never silently starts a new archive over it"""
     from vf.harness.session import LayoutFile, sig_header_items
     from vf.harness import refwriter as W
 
-    r = ObResult(bounds="base layout %s in a file object positioned at a symbolic offset 0..end; SevenZipFile(fileobj, 'a')"
-                        % RC.shape_name(pattern, folders, {}))
+    r = ObResult(bounds="base layout %s in a file object positioned at a symbolic offset 0..end; SevenZipFile(fileobj, %r)"
+                        % (RC.shape_name(pattern, folders, {}), mode))
     eng, st = mk_engine()
     sym = RC.symbols(eng, pattern)
     pos = eng.sym_int("position", 41)
@@ -248,7 +248,7 @@ def append_open_position(pattern, folders):
 
         e.overrides[(PZ, "SevenZipFile._check_7zfile")] = magic_here
         try:
-            z = e.new(e.cls(PZ, "SevenZipFile"), fp, "a")
+            z = e.new(e.cls(PZ, "SevenZipFile"), fp, mode)
         except ModelRaise as ex:
             return dict(raised=ex.name)
         writes = [op for op in fp.ops[n_ops:] if op[0] == "write"]
@@ -256,17 +256,17 @@ def append_open_position(pattern, folders):
 
     def post(o):
         if "raised" in o:
-            return None          # refusing is fine
+            return None if mode == "a" else False    # append may refuse; a valid archive must open for reading
         return [o["nfiles"] == len(pattern), o["writes"] == 0]   # the old members are seen and nothing was written over them
 
     decide(eng, harness, post, dict(RC.inputs_of(sym, pattern, folders), position=pos), r,
            describe=lambda o: o.get("raised") or "%d members seen, %d writes at open" % (o["nfiles"], o["writes"]))
     _cex(r, "append_open_position", lambda w_: dict(module="vf.props.c08", func="replay_open_position", kwargs=dict(
-        position=int(w_.get("position", 0)))), signature=lambda w_: {"obligation": "append_open_position"})
+        position=int(w_.get("position", 0)), mode=mode)), signature=lambda w_: {"obligation": "append_open_position", "mode": mode})
     return r
 
 
-def replay_open_position(position):
+def replay_open_position(position, mode="a"):
     import py7zr
 
     buf = io.BytesIO()
@@ -275,6 +275,12 @@ def replay_open_position(position):
     size = len(buf.getvalue())
     buf.seek(min(position, size) if position else buf.tell())
     at = buf.tell()
+    if mode == "r":
+        try:
+            names = py7zr.SevenZipFile(buf).getnames()
+        except Exception as e:  # noqa
+            return True, "a valid archive in a file object at position %d cannot be opened for reading: %r" % (at, e)
+        return names != ["a.txt"], "opened at position %d: %s" % (at, names)
     try:
         with py7zr.SevenZipFile(buf, "a", filters=[{"id": py7zr.FILTER_COPY}]) as z:
             z.writestr(b"second", "b.txt")
